@@ -79,7 +79,7 @@ func main() {
 				"tick.expect0", "tick.expect1", "tick.at3200", "tick.at3201", "restart.at3999", "restart.at4000",
 				"query.archived", "query.archived.fn", "fn.negated_slots", "query.live0", "query.live1", "query.future", "query.misaligned",
 				"immutability_rechecks", "reports.accepted_fresh", "reports.equivocation", "bans", "authorizations", "restarts", "file_checks",
-				"fault.outcome_observed", "fault.restart_in_fresh_process", "histories.deep", "histories.big",
+				"fault.outcome_observed", "fault.restart_in_fresh_process", "fault.scenarios.dir", "fault.scenarios.partial", "tornlog.scenarios", "histories.deep", "histories.big",
 				"restart.expired_device_has_reports", "restart.unexpired_device_has_reports", "restart.device_without_expiration_has_reports"} {
 				c.Require(k, 1)
 			}
@@ -128,7 +128,10 @@ func plan(tier string, seed int64) []run.Batch {
 			bs = append(bs, run.Batch{Kind: "deep", Seed: seed*100000 + 9700 + int64(i), N: 1, TimeoutS: 600, Params: map[string]string{"devices": fmt.Sprint(10 + 2*i), "rounds": fmt.Sprint(6 + i)}})
 		}
 		for i := 0; i < 4; i++ {
-			bs = append(bs, run.Batch{Kind: "diskfault", Seed: seed*100000 + 9500 + int64(i), N: 1, TimeoutS: 900})
+			bs = append(bs, run.Batch{Kind: "tornlog", Seed: seed*100000 + 9800 + int64(i), N: 1, TimeoutS: 400})
+		}
+		for i := 0; i < 4; i++ {
+			bs = append(bs, run.Batch{Kind: "diskfault", Seed: seed*100000 + 9500 + int64(i), N: 1, TimeoutS: 900, Params: map[string]string{"mode": []string{"dir", "partial"}[i%2]}})
 		}
 		return bs
 	}
@@ -137,7 +140,9 @@ func plan(tier string, seed int64) []run.Batch {
 	}
 	bs = append(bs, run.Batch{Kind: "bigrot", Seed: seed*100000 + 9000, N: 1, TimeoutS: 400, Params: map[string]string{"devices": "136"}})
 	bs = append(bs, run.Batch{Kind: "deep", Seed: seed*100000 + 9700, N: 1, TimeoutS: 400, Params: map[string]string{"devices": "12", "rounds": "6"}})
-	bs = append(bs, run.Batch{Kind: "diskfault", Seed: seed*100000 + 9500, N: 1, TimeoutS: 600})
+	bs = append(bs, run.Batch{Kind: "tornlog", Seed: seed*100000 + 9800, N: 1, TimeoutS: 400})
+	bs = append(bs, run.Batch{Kind: "diskfault", Seed: seed*100000 + 9500, N: 1, TimeoutS: 600, Params: map[string]string{"mode": "dir"}})
+	bs = append(bs, run.Batch{Kind: "diskfault", Seed: seed*100000 + 9501, N: 1, TimeoutS: 600, Params: map[string]string{"mode": "partial"}})
 	return bs
 }
 
@@ -217,25 +222,26 @@ type cell struct {
 
 type hist struct {
 	*drv.World
-	r        *ev.Result
-	rng      *rand.Rand
-	b        run.Batch
-	tag      string
-	devs     map[uint32]*drv.Dev // authorized and not banned (model)
-	gone     map[uint32]bool     // banned ids (model)
-	next     uint32
-	pending  map[uint32]*drv.Dev
-	mdl      map[uint32]map[uint32]*cell // device → absolute slot → cell
-	off      uint32                      // model window offset
-	arch     []refenc.Stats              // records produced by judged rotations, as stored
-	archB    []byte                      // reference serialization of arch
-	first    map[int]*refenc.Stats       // first plain response served per archived week
-	ops      []string
-	opn      int
-	keepDir  bool // the server directory outlives this process (disk-fault scenario)
-	accepted int  // accepted reports since the last (re)start
-	dead     bool // stop this history (precondition failed / server gone)
-	fatal    bool // stop the child (a server may still be running)
+	r         *ev.Result
+	rng       *rand.Rand
+	b         run.Batch
+	tag       string
+	devs      map[uint32]*drv.Dev // authorized and not banned (model)
+	gone      map[uint32]bool     // banned ids (model)
+	next      uint32
+	pending   map[uint32]*drv.Dev
+	mdl       map[uint32]map[uint32]*cell // device → absolute slot → cell
+	off       uint32                      // model window offset
+	arch      []refenc.Stats              // records produced by judged rotations, as stored
+	archB     []byte                      // reference serialization of arch
+	first     map[int]*refenc.Stats       // first plain response served per archived week
+	ops       []string
+	opn       int
+	keepDir   bool   // the server directory outlives this process (disk-fault scenario)
+	whileDown func() // run once between Close and the next start (file fault); that start may refuse
+	accepted  int    // accepted reports since the last (re)start
+	dead      bool   // stop this history (precondition failed / server gone)
+	fatal     bool   // stop the child (a server may still be running)
 }
 
 func (h *hist) op(format string, a ...interface{}) {
@@ -702,12 +708,25 @@ func (h *hist) restart(newClock uint32) {
 		return
 	}
 	drv.SetClock(newClock)
+	mayRefuse := h.whileDown != nil
+	if h.whileDown != nil {
+		h.whileDown() // a fault on the files while the server is down
+		h.whileDown = nil
+	}
 	hookArm()
 	ra, ia := drv.RotationArrive.Load(), drv.ImpactArrive.Load()
 	err, pan := guarded(h.Start)
 	pres := hookTake()
 	h.r.Eval(1)
 	h.r.Count("restarts", 1)
+	if mayRefuse && err != nil && pan == nil {
+		// fail-stop on a damaged file is an accepted outcome; the conditional oracle only
+		// applies to a server that comes up
+		h.r.Count("tornlog.start_refused", 1)
+		h.r.Note("%s: start on the damaged directory refused: %v", h.tag, err)
+		h.dead, h.fatal = true, true
+		return
+	}
 	if err != nil || pan != nil {
 		h.viol("restart-failed", nil, "starting again on the same directory failed: err=%v panic=%v", err, pan)
 		// a failed start leaves the instance's 120 s test-mode timer behind: end this child
@@ -1295,6 +1314,8 @@ func child(b run.Batch, r *ev.Result) {
 		childFaultB(b, r)
 	case "deep":
 		childDeep(b, r)
+	case "tornlog":
+		childTornLog(b, r)
 	case "bigrot":
 		var nd int
 		fmt.Sscan(b.P("devices"), &nd)
@@ -1357,6 +1378,58 @@ func child(b run.Batch, r *ev.Result) {
 				return
 			}
 		}
+	}
+}
+
+// childTornLog: the append of a report to equipment-reports.dat was cut short
+// (1..79 bytes of a valid report at the end of the file) while the server was
+// down. A server that refuses to start on that file is accepted (counted). If
+// it starts, the torn report was never accepted, and everything accepted
+// afterwards must still be there after the following restarts: the usual
+// restart and live-week oracles apply.
+func childTornLog(b run.Batch, r *ev.Result) {
+	h := newHist(b, r, 0, 3)
+	if h == nil {
+		return
+	}
+	defer h.stop()
+	h.setClock(uint32(300 + h.rng.Intn(300)))
+	h.burst(60 + h.rng.Intn(60))
+	h.restart(drv.Clock())
+	if h.dead {
+		return
+	}
+	h.burst(30)
+	ds := h.sortedDevs()
+	d := ds[h.rng.Intn(len(ds))]
+	n := []int{1, 4, 16, 37, 79, 1 + h.rng.Intn(79)}[h.rng.Intn(6)]
+	torn := d.Report(drv.Clock()+400, 4242).Bytes()[:n]
+	h.whileDown = func() {
+		f, err := os.OpenFile(filepath.Join(h.Dir, "equipment-reports.dat"), os.O_APPEND|os.O_WRONLY, 0644)
+		if err == nil {
+			f.Write(torn)
+			f.Close()
+		}
+	}
+	h.op("while the server is down: %d bytes of a report appended to equipment-reports.dat", n)
+	r.Count("tornlog.scenarios", 1)
+	h.restart(drv.Clock())
+	if h.dead {
+		return
+	}
+	r.Count("tornlog.started_on_torn_file", 1)
+	h.queryLive(0, false)
+	for i := 0; i < 3 && !h.dead; i++ {
+		h.burst(20 + h.rng.Intn(30)) // accepted after the torn write
+		h.queryLive(0, false)
+		h.restart(drv.Clock())
+		if !h.dead {
+			h.queryLive(0, false)
+			h.queryLive(1, false)
+		}
+	}
+	if !h.dead {
+		h.week(false) // and the week is archived with them
 	}
 }
 
